@@ -82,6 +82,7 @@ type WOut struct {
 	Handler            int // handler invocations
 	HandlerAfterReturn int
 	Finished           bool
+	hs                 *handlerState
 }
 
 // ROpOut is the observable result of one Reader call (or drain loop).
@@ -390,7 +391,8 @@ func (x *run) runWriter(idx int, cs *ClientState) {
 			break
 		}
 	}
-	out.Handler, out.HandlerAfterReturn = hs.counts()
+	hs.setReturned(true)
+	out.hs = hs
 	out.Finished = true
 }
 
@@ -846,6 +848,9 @@ func (e *Executor) bubble(p *plan.Plan, out *Outcome) {
 					out.Panics = append(out.Panics, o.Panic)
 				}
 			}
+		}
+		if wo.hs != nil {
+			wo.Handler, wo.HandlerAfterReturn = wo.hs.counts()
 		}
 		out.Probes.Add("handler.after.return", int64(wo.HandlerAfterReturn))
 	}
